@@ -79,6 +79,10 @@ class GCWorld(gen.World):
         rng = self.rng
         cfg = rng.choice([b"{}", b'{"architecture":"amd64"}'])
         layers = rng.sample(LAYERS, rng.randrange(0, 3))
+        mans = sorted(self.g[repo].man)
+        if mans and rng.random() < 0.15:
+            # a digest playing two roles: a layer whose bytes are those of a pushed manifest
+            layers = layers + [self.g[repo].bytes[rng.choice(mans)]]
         refs = [self.blob(repo, cfg)] + [self.blob(repo, l) for l in layers]
         sd = None
         if subject is not None:
